@@ -1,4 +1,6 @@
 import SFV.Proofs.DecomposeDriver
+import SFV.Proofs.DecomposeState
+import SFV.Proofs.DecomposeMesh
 import SFV.Gen.Compilers
 import Mathlib.Data.ZMod.Basic
 
@@ -155,6 +157,158 @@ theorem sun_compact_order {A : Type} [DecidableEq A] [Neg A] (half divn : A → 
         params.flatMap fun p => su2Cmds half zero reg p.1.1 p.1.2 p.2.1 p.2.2.1 p.2.2.2 :=
   sunCompact_order half divn zero reg params gp h
 
+/-! ### Gaussian states: means and covariances (lift from the quadrature vector) -/
+
+/-- **covariances**: the decomposition of every gate (daggered or not) acts on the covariance data by the same
+congruence `V ↦ X V Xᵀ` as the documented gate (`covStep` = `linMap` of the linear part, which
+`SFV.Gauss.covMatrix_linMap` identifies with the Mathlib matrix congruence), for every symmetric `V`. -/
+theorem gate_decompose_covariance (C : Consts K) (hC : C.ok) (c : Cmd K) (hok : c.ok) (seq : List (Cmd K))
+    (hd : decompose C c = some seq) (V : XP K) (hV : SymXP V) : covList C seq V = covStep C V c :=
+  decompose_cov C hC c hok seq hd V hV
+
+/-- **Gaussian states**: mean vector and covariance after the emitted list = after the documented gate. -/
+theorem gate_decompose_state (C : Consts K) (hC : C.ok) (c : Cmd K) (hok : c.ok) (seq : List (Cmd K))
+    (hd : decompose C c = some seq) (V : XP K) (hV : SymXP V) : stateList C seq V = stateStep C V c :=
+  decompose_state C hC c hok seq hd V hV
+
+/-- the state semantics used here is the independent phase-space calculation of C01 (`applyXP`, proved equal to the
+Gaussian simulator there): rotation, squeezing literally, the beamsplitter at the back end's `(−θ, −φ)` convention -/
+theorem primitives_are_C01_spec (C : Consts K) (V : XP K) (k l : Nat) (c s ch sh ct sn : K) :
+    covStep C V ⟨.Rg c s, [k], false⟩ = applyXP V (.phase c s k) ∧
+    covStep C V ⟨.Sg ch sh c s, [k], false⟩ = applyXP V (.squeeze c s ch sh k) ∧
+    covStep C V ⟨.BSg ct sn c s, [k, l], false⟩ = applyXP V (.bs c (-s) ct (-sn) k l) :=
+  ⟨covStep_R C c s k V, covStep_S C ch sh c s k V, covStep_BS C ct sn c s k l V⟩
+
+/-- **`DisplacedSqueezed`**: the template `[Squeezed, Dgate]` (reset, squeeze, displace) prepares the documented state
+`D(α) S(z)|0⟩`: block `[[cosh 2r − cos φ sinh 2r, −sin φ sinh 2r], [·, cosh 2r + cos φ sinh 2r]]`, mean `√(2ħ)(Re α, Im α)`,
+no correlation with the other modes, whose reduced state is untouched — any register, any prior state. -/
+theorem displaced_squeezed_doc (C : Consts K) (V : XP K) (k : Nat) (r c s ch sh c2 s2 : K) (hcs : c2 * c2 + s2 * s2 = 1) :
+    dsqTemplateState C V k r c s ch sh c2 s2 =
+      prepMode V k ((ch * ch + sh * sh) - c2 * (2 * ch * sh)) (-(s2 * (2 * ch * sh)))
+        ((ch * ch + sh * sh) + c2 * (2 * ch * sh)) (C.h * (r * c)) (C.h * (r * s)) :=
+  displacedSqueezed_doc C V k r c s ch sh c2 s2 hcs
+
+/-! ### the emitted mesh circuits are the factorisations' defining products
+
+Unitary semantics `runM` (`SFV/Model/DecomposeMesh.lean`): every passive gate multiplies the accumulated unitary from
+the left by its docstring matrix embedded at its targets.  `cs` gives `(cos, sin)` of an opaque angle, `hf = 1/2`. -/
+
+open SFV.Decomp in
+/-- per block: `BSgate(θ,0)·Rgate(φ) = T(θ,φ)`, `Rgate(−φ)·BSgate(−θ,0) = Ti(θ,φ)`, at any two distinct modes -/
+theorem clements_blocks {A : Type} [Neg A] (cs : A → K × K) (hf : K) (zero : A) (h0 : cs zero = (1, 0))
+    (hneg : ∀ a, cs (-a) = ((cs a).1, -(cs a).2)) (θ φ : A) (p q : Nat) (hpq : p ≠ q) (W : CMat K) :
+    applyM cs hf ⟨.BS θ zero, [p, q]⟩ (applyM cs hf ⟨.R φ, [p]⟩ W) = leftMix (blkT (cs θ).1 (cs θ).2 (eOf cs φ)) p q W ∧
+    applyM cs hf ⟨.R (-φ), [p]⟩ (applyM cs hf ⟨.BS (-θ) zero, [p, q]⟩ W) = leftMix (blkTi (cs θ).1 (cs θ).2 (eOf cs φ)) p q W :=
+  ⟨clements_block cs hf zero h0 θ φ p q hpq W, clements_inv_block cs hf zero h0 hneg θ φ p q hpq W⟩
+
+open SFV.Decomp in
+/-- per block: the MZgate docstring matrix is `mach_zehnder(φ_i, φ_e)`; the sMZgate matrix at `(σ+δ, σ−δ)` is the
+sMZI matrix `M(σ, δ)` -/
+theorem mz_smz_blocks (hf c s cσ sσ : K) (hh : hf + hf = 1) (hcs : c * c + s * s = 1) (e' : SFV.Decomp.Cx K) :
+    blkMZdoc hf (⟨c * c - s * s, 2 * c * s⟩ : SFV.Decomp.Cx K) e' = blkMZ c s e' ∧
+    blkSMZdoc hf (⟨cσ * c - sσ * s, sσ * c + cσ * s⟩ : SFV.Decomp.Cx K) ⟨cσ * c + sσ * s, sσ * c - cσ * s⟩ = blkM c s ⟨cσ, sσ⟩ :=
+  ⟨mz_block hf c s hh hcs e', smz_block hf cσ sσ c s hh⟩
+
+open SFV.Decomp in
+/-- **Clements meshes**, `drop_identity=False`: emitted unitary = `Ti(BS2[0]) ⋯ Ti(BS2[-1]) · D · T(BS1[-1]) ⋯ T(BS1[0])`,
+for factor lists of every length on any injective target list. -/
+theorem interferometer_defining_product {A : Type} [DecidableEq A] [Neg A] (cs : A → K × K) (hf : K) (zero : A)
+    (h0 : cs zero = (1, 0)) (hneg : ∀ a, cs (-a) = ((cs a).1, -(cs a).2)) (clip mod2pi : A → A) (identity : Bool)
+    (reg : List Nat) (BS1 : List (Nat × Nat × A × A)) (R : List (Option A)) (BS2 : List (Nat × Nat × A × A))
+    (h1 : ∀ e ∈ BS1, rg reg e.1 ≠ rg reg e.2.1) (h2 : ∀ e ∈ BS2, rg reg e.1 ≠ rg reg e.2.1) (W : CMat K) :
+    runM cs hf (interferometerCmds zero clip mod2pi identity false false reg BS1 R (some BS2)) W =
+      prodTi cs (relab reg clip BS2.reverse) (prodPhase cs (phaseList zero mod2pi reg R) (prodT cs (relab reg clip BS1) W)) :=
+  SFV.Decompose.interferometer_defining_product cs hf zero h0 hneg clip mod2pi identity reg BS1 R BS2 h1 h2 W
+
+open SFV.Decomp in
+/-- **given factors with the promised structure, the emitted circuit is `U`** — with `drop_identity` on or off
+(for a non-identity input): if the defining product of `(BS1, R, BS2)` is `U`, so is the unitary of the command list.
+C17 (`reconstruct`, `schedule_rectangular`) derives the hypothesis from the elimination run. -/
+theorem interferometer_implements_U {A : Type} [DecidableEq A] [Neg A] (cs : A → K × K) (hf : K) (zero : A)
+    (h0 : cs zero = (1, 0)) (hneg : ∀ a, cs (-a) = ((cs a).1, -(cs a).2)) (hnz : -zero = zero) (clip mod2pi : A → A)
+    (hmod : mod2pi zero = zero) (dropId : Bool) (reg : List Nat) (BS1 : List (Nat × Nat × A × A)) (R : List (Option A))
+    (BS2 : List (Nat × Nat × A × A)) (h1 : ∀ e ∈ BS1, rg reg e.1 ≠ rg reg e.2.1) (h2 : ∀ e ∈ BS2, rg reg e.1 ≠ rg reg e.2.1)
+    (U : CMat K)
+    (hprod : prodTi cs (relab reg clip BS2.reverse) (prodPhase cs (phaseList zero mod2pi reg R)
+      (prodT cs (relab reg clip BS1) idM)) = U) :
+    runM cs hf (interferometerCmds zero clip mod2pi false dropId false reg BS1 R (some BS2)) idM = U := by
+  cases dropId
+  · rw [SFV.Decompose.interferometer_defining_product cs hf zero h0 hneg clip mod2pi false reg BS1 R BS2 h1 h2 idM, hprod]
+  · rw [interferometer_drop_same_unitary cs hf zero h0 hnz clip mod2pi hmod false reg BS1 R (some BS2) idM,
+      SFV.Decompose.interferometer_defining_product cs hf zero h0 hneg clip mod2pi false reg BS1 R BS2 h1 h2 idM, hprod]
+
+open SFV.Decomp in
+/-- **Reck mesh** (repaired): emitted unitary = `Ti(tl[-1]) ⋯ Ti(tl[0]) · D` (`U = T₁⁻¹ ⋯ T_k⁻¹ D`). -/
+theorem triangular_defining_product {A : Type} [DecidableEq A] [Neg A] (cs : A → K × K) (hf : K) (zero : A)
+    (h0 : cs zero = (1, 0)) (hneg : ∀ a, cs (-a) = ((cs a).1, -(cs a).2)) (clip mod2pi : A → A) (identity : Bool)
+    (reg : List Nat) (BS1 : List (Nat × Nat × A × A)) (R : List (Option A)) (BS2 : Option (List (Nat × Nat × A × A)))
+    (h1 : ∀ e ∈ BS1, rg reg e.1 ≠ rg reg e.2.1) (W : CMat K) :
+    runM cs hf (interferometerDecompose zero clip mod2pi identity false false true reg BS1 R BS2) W =
+      prodTi cs (relab reg clip BS1) (prodPhase cs (phaseList zero mod2pi reg R) W) :=
+  SFV.Decompose.triangular_defining_product cs hf zero h0 hneg clip mod2pi identity reg BS1 R BS2 h1 W
+
+open SFV.Decomp in
+/-- the Reck factors emitted the *old* way (as a Clements `BS1` list: `T` blocks, then the phases) give
+`D · T(tl[-1]) ⋯ T(tl[0])` instead — a different matrix already for one block: -/
+theorem triangular_old_counterexample :
+    let cs : Int → Int × Int := fun a => if a = 1 then (0, 1) else if a = -1 then (0, -1) else (1, 0)
+    runM cs 0 (interferometerCmds 0 id id false false false [0, 1] [(0, 1, 1, 0)] [some 0, some 0] none) idM 0 1 ≠
+    runM cs 0 (interferometerDecompose 0 id id false false false true [0, 1] [(0, 1, 1, 0)] [some 0, some 0] none) idM 0 1 := by
+  decide
+
+open SFV.Decomp in
+/-- **MZ mesh** (`rectangular_symmetric`): emitted unitary = `∏ mach_zehnder(φ_i, φ_e)` in list order. -/
+theorem symmetric_defining_product {A : Type} [DecidableEq A] [Neg A] (cs : A → K × K) (hf : K) (hh : hf + hf = 1)
+    (zero : A) (clip mod2pi : A → A) (half : A → K × K)
+    (hhalf : ∀ a, cs a = ((half a).1 * (half a).1 - (half a).2 * (half a).2, 2 * (half a).1 * (half a).2))
+    (hunit : ∀ a, (half a).1 * (half a).1 + (half a).2 * (half a).2 = 1)
+    (identity dropId : Bool) (hd : (!identity || !dropId) = true) (reg : List Nat)
+    (BS1 : List (Nat × Nat × A × A)) (W : CMat K) :
+    runM cs hf (interferometerCmds zero clip mod2pi identity dropId true reg BS1 [] none) W =
+      prodMZ cs half (relab reg (fun a => mod2pi (clip a)) BS1) W :=
+  SFV.Decompose.symmetric_defining_product cs hf hh zero clip mod2pi half hhalf hunit identity dropId hd reg BS1 W
+
+open SFV.Decomp in
+/-- **`sun_compact`**: emitted unitary = global phase · `B₁ B₂ ⋯ B_k` (SU(2) blocks, last factor acting first). -/
+theorem sun_compact_defining_product {A : Type} [DecidableEq A] [Neg A] (cs : A → K × K) (hf : K) (zero : A)
+    (h0 : cs zero = (1, 0)) (hneg : ∀ a, cs (-a) = ((cs a).1, -(cs a).2)) (half divn : A → A) (reg : List Nat)
+    (params : List ((Nat × Nat) × (A × A × A))) (gp : Option A) (hadj : ∀ p ∈ params, p.1.2 = p.1.1 + 1)
+    (hl : ∀ p ∈ params, rg reg p.1.1 ≠ rg reg p.1.2) (W : CMat K) :
+    ∃ cmds, sunCompactCmds half divn zero reg params gp = some cmds ∧
+      runM cs hf cmds W =
+        prodPhase cs ((match gp with | some g => reg.map fun mode => (divn g, mode) | none => []).reverse)
+          (prodSU2 cs half reg params.reverse W) :=
+  SFV.Decompose.sun_compact_defining_product cs hf zero h0 hneg half divn reg params gp hadj hl W
+
+/-! ### templates of the matrix operations -/
+
+/-- `GraphEmbed._decompose` without the `identity` shortcut: the squeezers the factors demand (those not below the
+tolerance), then one interferometer with the requested mesh — unless `U` is the identity. -/
+theorem graph_embed_cmds_partial {A : Type} (d : IDefaults A) (zero : A) (sq : List (A × Bool)) (uId : Bool)
+    (kwMesh : Option String) (reg : List Nat) :
+    graphEmbedCmds d zero false sq uId kwMesh reg =
+      (sq.zipIdx.flatMap fun (sb, n) => if sb.2 then [(⟨.sgate sb.1 zero, [rg reg n]⟩ : XCmd A)] else []) ++
+      (if uId then [] else [⟨.interferometer "U" (kwMesh.getD "rectangular") d.dropId d.tol, reg⟩]) := by
+  simp [graphEmbedCmds]
+
+/-- known finding: with `A = 1` the flag `identity` is set and nothing is emitted, although the factors of that `A`
+(equal non-zero squeezing on every mode, `U = 1`) demand one squeezer per mode -/
+theorem graph_embed_identity_counterexample :
+    graphEmbedCmds (⟨"rectangular", true, 0⟩ : IDefaults Int) 0 true [(1, true), (1, true)] true none [0, 1] = [] ∧
+    graphEmbedCmds (⟨"rectangular", true, 0⟩ : IDefaults Int) 0 false [(1, true), (1, true)] true none [0, 1] =
+      [⟨.sgate 1 0, [0]⟩, ⟨.sgate 1 0, [1]⟩] := by decide
+
+/-- `GaussianTransform._decompose`, active and not on vacuum: interferometer `U2` first, the squeezers not below
+tolerance as `Sgate(−r, φ)`, then `U1` — the documented `S = O₁ Z O₂` read from the right — and *both* interferometers
+carry the requested mesh (after the `fix:`; the first one used to ignore the option). -/
+theorem gaussian_transform_structure {A : Type} [Neg A] (d : IDefaults A) (kwMesh : Option String)
+    (sq : List (Bool × A × A)) (reg : List Nat) :
+    gaussianTransformCmds d true false kwMesh sq reg =
+      [⟨.interferometer "U2" (kwMesh.getD "rectangular") d.dropId d.tol, reg⟩] ++
+      (sq.zipIdx.flatMap fun (e, n) => if e.1 then [(⟨.sgate (-e.2.1) e.2.2, [rg reg n]⟩ : XCmd A)] else []) ++
+      [⟨.interferometer "U1" (kwMesh.getD "rectangular") d.dropId d.tol, reg⟩] := by
+  simp [gaussianTransformCmds]
+
 /-! ### the repaired pure-diagonal branch of `Gaussian._decompose`
 
 `Squeezed(r, φ)` has `V_xx = cosh 2r − cos φ·sinh 2r`; twice that is `(e^{2r} + e^{−2r}) − cos φ·(e^{2r} − e^{−2r})`.
@@ -206,5 +360,31 @@ example : interferometerDecompose (0 : Int) id id false false false true [0, 1] 
 example : (sunCompactCmds (fun x : Int => x) (fun x => x) 0 [3, 4] [((0, 1), (1, 2, 3))] (some 9)).map List.length = some 7 := by
   decide
 example : twiceVxx (gaussDiag false (4 : Rat) (1 / 4)) = 8 := by decide +kernel
+/-- a symmetric, correlated, non-vacuum state over `ZMod 17` meets `SymXP` -/
+def exV : XP (ZMod 17) := ⟨fun i j => if i = j then 3 else 2, fun i j => (i + 2 * j : Nat), fun i j => if i = j then 5 else 1,
+  fun i => (i + 1 : Nat), fun _ => 4⟩
+example : SymXP exV := ⟨fun i j => by simp only [exV, eq_comm], fun i j => by simp only [exV, eq_comm]⟩
+example : ∃ seq, decompose exC ⟨.S2g 6 1 4 6, [2, 0], true⟩ = some seq ∧ stateList exC seq exV = stateStep exC exV ⟨.S2g 6 1 4 6, [2, 0], true⟩ :=
+  ⟨_, rfl, gate_decompose_state exC exC_ok _ (by simp [Cmd.ok, Op.ok, Op.isGate, Op.arity]; decide) _ rfl exV
+    ⟨fun i j => by simp only [exV, eq_comm], fun i j => by simp only [exV, eq_comm]⟩⟩
+/-- atoms of the angles `0, ±1` over `ZMod 17` meeting the hypotheses of the mesh theorems -/
+def exCs : Int → ZMod 17 × ZMod 17 := fun a => if a = 0 then (1, 0) else if 0 < a then (4, 6) else (4, -6)
+example : exCs 0 = (1, 0) ∧ ∀ a, exCs (-a) = ((exCs a).1, -(exCs a).2) := by
+  refine ⟨rfl, fun a => ?_⟩
+  simp only [exCs]
+  rcases lt_trichotomy a 0 with h | h | h
+  · have h1 : ¬ a = 0 := by omega
+    have h2 : ¬ 0 < a := by omega
+    have h3 : ¬ -a = 0 := by omega
+    have h4 : 0 < -a := by omega
+    simp [h1, h2, h3]
+    intro h5; exact absurd h5 (by omega)
+  · subst h; simp
+  · have h1 : ¬ a = 0 := by omega
+    have h3 : ¬ -a = 0 := by omega
+    have h4 : ¬ 0 < -a := by omega
+    simp [h1, h, h3]
+    intro h5; exact absurd h5 (by omega)
+example : (9 : ZMod 17) + 9 = 1 := by decide
 
 end SFV.C02
